@@ -482,6 +482,96 @@ E2E_CORPUS = [   # (vars [(lb, ub, int)], logical constraints)
 ]
 
 
+TR_TYPES = {'ExpConstraint': 'exp', 'LogConstraint': 'log', 'SinConstraint': 'sin', 'CosConstraint': 'cos', 'TanConstraint': 'tan',
+            'AsinConstraint': 'asin', 'AcosConstraint': 'acos', 'AtanConstraint': 'atan', 'SinhConstraint': 'sinh',
+            'CoshConstraint': 'cosh', 'TanhConstraint': 'tanh', 'AsinhConstraint': 'asinh', 'AcoshConstraint': 'acosh',
+            'AtanhConstraint': 'atanh', 'PowConstraint': 'pow', 'ExpAConstraint': 'expa', 'LogAConstraint': 'loga'}
+
+
+def e2e_add_nonlinear(D, log):
+    """functional constraints c01_oracle does not decode (pow and the transcendental functions), accepted natively"""
+    for e in log:
+        if e.get('ev') == 'con' and e['type'] in TR_TYPES:
+            d = e['data']
+            D.cons.append({'type': e['type'], 'k': 'func', 'f': 'tr:' + TR_TYPES[e['type']], 'res': int(d['res']), 'ctx': d['ctx'],
+                           'args': [int(a) for a in d['args']], 'params': [_num_or_none(p) for p in d['params']], '_float': True})
+    D.unsupported = [u for u in D.unsupported if u not in TR_TYPES]
+
+
+def _num_or_none(s):
+    import recsolver as R
+    try:
+        return R.num(s)
+    except Exception:
+        return None
+
+
+def tr_value(c, x):
+    """value of pow / transcendental constraints (exact for integer powers, libm double otherwise)"""
+    f = c['f'][3:]
+    a = x[c['args'][0]]
+    toks = {'pow': ['pow', '0', G.tok(c['params'][0])] if f == 'pow' and (c['params'][0].denominator & (c['params'][0].denominator - 1)) == 0 else None}
+    try:
+        if f == 'pow':
+            p = c['params'][0]
+            if p.denominator == 1:
+                if a == 0 and p < 0:
+                    return None
+                return F(a) ** int(p)
+            if a < 0:
+                return None
+            return F(math.pow(float(a), float(p)))
+        if f == 'expa':
+            return F(math.pow(float(c['params'][0]), float(a)))
+        if f == 'loga':
+            return F(math.log(float(a)) / math.log(float(c['params'][0]))) if a > 0 else None
+        if f == 'log':
+            return F(math.log(float(a))) if a > 0 else None
+        return F(getattr(math, f)(float(a)))
+    except (ValueError, OverflowError, ZeroDivisionError):
+        return None
+
+
+def fev(e, x):
+    """float value of an NL expression that may contain transcendental functions; raises ValueError outside the domain"""
+    import nlgen as N
+    try:
+        return float(N.ev(e, x))
+    except N.Undefined as u:
+        if 'no exact semantics' not in str(u) and 'fractional' not in str(u):
+            raise ValueError(str(u))
+    k = e[0]
+    if k in ('+', '-', '*'):
+        a, b = fev(e[1], x), fev(e[2], x)
+        return a + b if k == '+' else a - b if k == '-' else a * b
+    if k == 'cpow':
+        return math.pow(fev(e[1], x), fev(e[2], x))
+    if k == 'sum':
+        return sum(fev(a, x) for a in e[1])
+    a = fev(e[1], x)
+    if k in ('log', 'log10') and a <= 0:
+        raise ValueError(k)
+    if k == 'sqrt' and a < 0:
+        raise ValueError(k)
+    if k in ('asin', 'acos') and abs(a) > 1:
+        raise ValueError(k)
+    if k == 'acosh' and a < 1:
+        raise ValueError(k)
+    if k == 'atanh' and abs(a) >= 1:
+        raise ValueError(k)
+    return getattr(math, k)(a)
+
+
+def objectives_defined(m, p):
+    for o in m.objs:
+        if o['nl'] is not None:
+            try:
+                fev(o['nl'], p)
+            except (ValueError, OverflowError, AttributeError, KeyError, TypeError, ZeroDivisionError):
+                return False
+    return True
+
+
 def e2e_eval(D, orc, pt):
     """values of all variables that are determined by the point of the original variables through the delivered
     functional constraints (res == f(args)), computed exactly; returns dict var -> Fraction and the list of definitions"""
@@ -508,7 +598,9 @@ def e2e_eval(D, orc, pt):
                 continue
             progress = True
             try:
-                if c['k'] == 'func':
+                if c['k'] == 'func' and c['f'].startswith('tr:'):
+                    val = tr_value(c, x)
+                elif c['k'] == 'func':
                     val = orc.func_value(c, x)
                 elif c['k'] == 'cond':
                     val = F(int(orc._alg_holds(c['con'], x, c['cmp'])))
@@ -596,14 +688,17 @@ def e2e_stage(ck, quick):
     r = G.Rng(ck.seed * 48271 + 12)
     models = e2e_models(ck, quick)
     st = {'models': 0, 'delivered': 0, 'refused': 0, 'points': 0, 'feasible_points': 0, 'result_var_checks': 0,
-          'types': {}, 'refusal_kinds': {}, 'unsupported_types': {}}
+          'types': {}, 'refusal_kinds': {}, 'unsupported_types': {}, 'configs': {}, 'orig_var_checks': 0}
     seen = set()
     for mi, (src, m, grids) in enumerate(models):
         st['models'] += 1
         stub = os.path.join(wdir, 'm%d' % (mi % 8))
         m.write(stub, names=False)
-        res = R.run(exe, stub, accept='ALL', timeout=60)
+        cfg = getattr(m, 'c06cfg', None) or {'accept': 'ALL', 'options': []}
+        res = R.run(exe, stub, accept=cfg['accept'], options=cfg['options'], timeout=60)
         D = orc.Delivered(res['log'])
+        e2e_add_nonlinear(D, res['log'])
+        st['configs'][cfg['accept'][:12] + ' ' + ' '.join(cfg['options'])] = st['configs'].get(cfg['accept'][:12] + ' ' + ' '.join(cfg['options']), 0) + 1
         if not (D.begun and D.ended):
             st['refused'] += 1
             txt = (res['err'] or '') + (res['out'] or '') + (res['sol'] or '')[:600]
@@ -617,7 +712,7 @@ def e2e_stage(ck, quick):
                         ok = m.feasible(p)
                     except Exception:
                         ok = False
-                    if ok:
+                    if ok and objectives_defined(m, p):
                         sig = 'e2e:declared-infeasible-but-feasible-point'
                         if sig not in seen:
                             seen.add(sig)
@@ -643,7 +738,20 @@ def e2e_stage(ck, quick):
                     continue
             except Exception:
                 continue
+            if not objectives_defined(m, p):
+                st['points_outside_objective_domain'] = st.get('points_outside_objective_domain', 0) + 1
+                continue
             st['feasible_points'] += 1
+            for i in range(n):
+                st['orig_var_checks'] += 1
+                xv = F(p[m.perm[i]])
+                if not (D.lb[i] <= xv <= D.ub[i]):
+                    sig = 'e2e:original-variable-domain-cut'
+                    if sig not in seen:
+                        seen.add(sig)
+                        ck.add_violation(sig, 'end to end: the NL-feasible point %s has x%d = %s, but the ModelAPI received bounds [%s, %s] for this '
+                                         'original variable (accept=%s options=%s)' % ([str(v) for v in p], i, xv, D.lb[i], D.ub[i], cfg['accept'], cfg['options']),
+                                         {'model': c01gen.model_to_json(m, grids), 'cfg': cfg, 'point_model_order': [str(v) for v in p]}, found_input=True)
             x, defs = e2e_eval(D, orc, {i: F(p[m.perm[i]]) for i in range(n)})
             for c in defs:
                 rv = c['res']
@@ -652,7 +760,7 @@ def e2e_stage(ck, quick):
                 val = x[rv]
                 st['result_var_checks'] += 1
                 lo, hi = D.lb[rv], D.ub[rv]
-                tol = 0 if (D.inexact == 0 and (val.denominator & (val.denominator - 1)) == 0) else F(1, 10 ** 9) * (1 + abs(val))
+                tol = 0 if (D.inexact == 0 and not c.get('_float') and (val.denominator & (val.denominator - 1)) == 0) else F(1, 10 ** 9) * (1 + abs(val))
                 bad = None
                 if val < lo - tol:
                     bad = 'lb'
